@@ -395,7 +395,9 @@ impl Prop for C12Prop {
         // completed by an unrelated later result and mixes fields of two operators
         // the hierarchical (-t) view loses a failure that happens inside a nested function frame;
         // the plain view of the same run (checked first, clause 1) does report it
-        if v.sig == "hierarchy-has-no-failure-entry" {
+        // (only for compiled programs, whose symbol table gives the view function frames; a raw
+        // program has none and must show its failure)
+        if v.sig == "hierarchy-has-no-failure-entry" && v.case.get("source").is_some() {
             return Some("hierarchical-view-drops-a-failure-inside-a-function-frame");
         }
         if v.sig == "row-not-true-of-consensus" {
